@@ -33,6 +33,8 @@ func c18ExpectedCodes(applied string) []string {
 		return []string{"linker-path-annotation-invalid-reference"}
 	case "aliasDup":
 		return []string{"linker-duplicate-path-alias-ref"}
+	case "aliasWrongType":
+		return []string{"annotation-properties-invalid-value-for-key"}
 	case "dupTemplateName":
 		return []string{"linker-duplicate-url-parameter"}
 	case "unboundTemplateName", "prefixParam":
@@ -166,14 +168,17 @@ func c18Check(m lkModel, rec *ev.Recorder) []harness.Viol {
 	// code and severity documented for the violated rule (single perturbations only)
 	if len(applied) == 1 {
 		for _, want := range c18ExpectedCodes(applied[0]) {
-			found := false
+			found, asError := false, false
 			for _, d := range fd {
 				if d.D.Code == want {
 					found = true
-					if d.D.Severity != diagnostics.DiagnosticError {
-						add("severity:"+want, "perturbation %s: %s is reported with severity %v, the rule is an error", applied[0], want, d.D.Severity)
+					if d.D.Severity == diagnostics.DiagnosticError {
+						asError = true
 					}
 				}
+			}
+			if found && !asError {
+				add("severity:"+want, "perturbation %s: %s is never reported with error severity although the rule blocks generation", applied[0], want)
 			}
 			if !found {
 				kind := strings.SplitN(applied[0], ":", 2)[0]
